@@ -3,6 +3,7 @@ package main
 import (
 	"encoding/hex"
 	"fmt"
+	"strconv"
 	"strings"
 
 	objectpatch "github.com/flant/shell-operator/pkg/kube/object_patch"
@@ -16,6 +17,7 @@ import (
 // c04Out is what one hook execution leaves behind.
 type c04Out struct {
 	Exit    int
+	Sig     int    // > 0: the hook process does not exit, it is terminated by this signal (after writing its files)
 	Metrics string // text of $METRICS_PATH ("" = left empty)
 	Patch   string // text of $KUBERNETES_PATCH_PATH
 	PApply  bool   // the patch operations (when the text is parsable) can be applied
@@ -31,7 +33,11 @@ func c04Hex(s string) string {
 }
 
 func (o *c04Out) args() string {
-	return fmt.Sprintf("exit=%d metrics=%s patch=%s papply=%d", o.Exit, c04Hex(o.Metrics), c04Hex(o.Patch), c04B01(o.PApply))
+	exit := strconv.Itoa(o.Exit)
+	if o.Sig > 0 {
+		exit = "sig" + strconv.Itoa(o.Sig) // how the process ended is an input; whether that is a failed run the driver decides
+	}
+	return fmt.Sprintf("exit=%s metrics=%s patch=%s papply=%d", exit, c04Hex(o.Metrics), c04Hex(o.Patch), c04B01(o.PApply))
 }
 
 func c04Blank(rng *Rng) string {
@@ -250,6 +256,11 @@ func c04PatchDocs(rng *Rng, ns string) ([]string, bool) {
 	return docs, apply
 }
 
+// non-zero exit codes (boundaries of the 8-bit status, the shell's own 126/127/128+n) and signals
+// whose default action terminates the process
+var c04ExitCodes = []int{1, 1, 2, 3, 64, 126, 127, 128, 130, 137, 143, 254, 255}
+var c04Signals = []int{9, 9, 15, 15, 11, 6, 1, 2, 3, 10, 12, 13, 14, 7, 8, 4}
+
 // c04GenOut generates what one execution leaves behind. bad = the run is meant to fail.
 func c04GenOut(rng *Rng, bad bool, tag, ns string) *c04Out {
 	o := &c04Out{PApply: true, Bad: bad}
@@ -282,7 +293,11 @@ func c04GenOut(rng *Rng, bad bool, tag, ns string) *c04Out {
 	}
 	switch {
 	case rng.Chance(15):
-		o.Exit, o.Shape = PickOne(rng, []int{1, 2, 3}), "exit-nonzero-with-output"
+		o.Exit, o.Shape = PickOne(rng, c04ExitCodes), "exit-nonzero-with-output"
+	case rng.Chance(18):
+		// the process is terminated by a signal (OOM killer, kill, a crash): os.ProcessState.ExitCode() is -1
+		o.Sig = PickOne(rng, c04Signals)
+		o.Shape = "killed-by-signal-" + strconv.Itoa(o.Sig)
 	case withP && rng.Chance(50):
 		o.Patch, o.Shape = c04Damage(rng, pdocs, "p")
 		o.Shape = "patch:" + o.Shape
